@@ -20,12 +20,17 @@ STUB_HARNESSES = [
 ]
 
 PROPS = {
-    'C02': dict(units=['core_all'], level='proof'),
+    'C01': dict(units=['core_all', 'route'], level='proof'),
+    'C02': dict(units=['core_all', 'events', 'route'], level='proof'),
+    'C04': dict(units=['core_all', 'route'], level='proof'),
+    'C05': dict(units=['core_all', 'events', 'route'], level='proof'),
+    'C09': dict(units=['core_all', 'events', 'route'], level='proof'),
+    'C10': dict(units=['core_all', 'events', 'route'], level='proof'),
     'C06': dict(units=['core_all'], level='proof'),
     'C08': dict(units=['core_all'], level='proof'),
     'C12': dict(units=['core_all'], level='proof'),
-    'C13': dict(units=['core_all'], level='proof'),
-    'C07': dict(units=['reg'], level='proof',
+    'C13': dict(units=['core_all', 'events'], level='proof'),
+    'C07': dict(units=['reg', 'events'], level='proof',
                 kani=[K('reg_packets_layout', 'C07.kani.reg_packets_carry_type_and_id')]),
     'C16': dict(units=[], level='proof', kani=[
         K('cc_tick_range_and_wf', 'C16.kani.tick.target_in_range_and_floor_until_rtt_sample'),
